@@ -394,7 +394,8 @@ func (r *Report) writeEvidence(nViol int) {
 			}
 		}
 	}
-	// keep the evidence readable: the 80 most executed functions
+	// keep the evidence readable: every function of the repository under test that was executed (with the number
+	// of SSA instructions interpreted in it), and the 40 most executed functions of other modules / the standard library
 	type kv struct {
 		k string
 		v int
@@ -405,11 +406,16 @@ func (r *Report) writeEvidence(nViol int) {
 	}
 	sort.Slice(fl, func(i, j int) bool { return fl[i].v > fl[j].v })
 	fenc := map[string]int{}
-	for i, x := range fl {
-		if i >= 80 {
-			break
+	others := 0
+	for _, x := range fl {
+		if strings.Contains(x.k, "github.com/libp2p/go-libp2p/") {
+			fenc[x.k] = x.v
+			continue
 		}
-		fenc[x.k] = x.v
+		if others < 40 {
+			fenc[x.k] = x.v
+			others++
+		}
 	}
 	var assume, outside, stubs, bounds, oblig []string
 	for _, f := range r.files {
@@ -448,6 +454,7 @@ func (r *Report) writeEvidence(nViol int) {
 			"exhaustive":                    len(r.inconcl) == 0 && len(r.mismatch) == 0,
 			"explanation":                   "bounded symbolic execution of the real functions from go/ssa; states = feasible symbolic paths completed, transitions = symbolic branch decisions explored; every vAssert is a solver query PC && !cond (unsat = holds for all values on that path within the bounds); traces_validated_against_impl = path witnesses (solver models of completed paths) replayed natively against the real build with identical cover/assert/observe traces",
 			"functions_encoded":             fenc,
+			"functions_encoded_total":       len(funcs),
 			"bounds":                        bounds,
 			"stubs":                         stubs,
 			"obligation_list":               oblig,
